@@ -17,7 +17,7 @@ class BuiltinMixin:
         if isinstance(v, tuple):
             return ListV(list(v), kind="tuple")
         if isinstance(v, DictV):
-            return ListV(list(v.d.keys()))
+            return ListV(v.keys())
         if isinstance(v, Opaque) and isinstance(v.what, tuple):
             if v.what[0] == "range":
                 lo, hi = v.what[1], v.what[2]
@@ -206,6 +206,9 @@ class BuiltinMixin:
             return IterV(self.as_list(v, fr), 0)
         if name == "next":
             it = args[0]
+            if isinstance(it, ListV) and node is not None and node.args and isinstance(node.args[0], ast.GeneratorExp):
+                # next(<generator expression>): a fresh one-shot iterator over the (already filtered) elements
+                it = IterV(it, 0)
             if not isinstance(it, IterV):
                 raise Unsupported("next() of non-iterator")
             l = it.lst
@@ -318,6 +321,24 @@ class BuiltinMixin:
             if l.items is not None:
                 return ListV(list(reversed(l.items)))
             raise Unsupported("reversed of symbolic list")
+        if name == "set":
+            out = SetV({})
+            if args:
+                src = self.as_list(args[0], fr)
+                if src.items is None:
+                    raise Unsupported("set() of a symbolic-length iterable")
+                for x in src.items:
+                    self.dict_store(fr, out, x, True)
+            return out
+        if name == "uf_int":
+            zs = [zval(a) for a in args[1:]]
+            f = z3.Function("ufi_" + str(args[0]), *[z.sort() for z in zs], z3.IntSort())
+            return f(*zs)
+        if name == "uf_str":
+            # uninterpreted function symbol with a String result (spec-level: an abstract pure function of its arguments)
+            zs = [zval(a) for a in args[1:]]
+            f = z3.Function("uf_" + str(args[0]), *[z.sort() for z in zs], z3.StringSort())
+            return f(*zs)
         if name == "sorted":
             l = self.as_list(args[0], fr)
             if l.items is not None and all(not is_z3(x) for x in l.items):
@@ -359,7 +380,17 @@ class BuiltinMixin:
             return args[0].pos
         if name == "strlen":
             return z3.Length(zstr(args[0]))
+        if name == "substr":
+            # substr(s, lo, hi) = s[lo:hi] for 0 <= lo <= hi (z3 str.substr clips at the end of s; a negative length gives "")
+            lo, hi = zint(args[1]), zint(args[2])
+            return z3.SubString(zstr(args[0]), lo, hi - lo)
+        if name == "char_at":
+            return z3.SubString(zstr(args[0]), zint(args[1]), 1)
         if name == "distinct":
+            if len(args) == 1 and isinstance(args[0], ListV):
+                if args[0].items is None:
+                    raise Unsupported("distinct over a symbolic-length list")
+                args = list(args[0].items)
             return z3.Distinct([zval(a) for a in args]) if len(args) > 1 else True
         raise Unsupported(f"builtin {name}")
 
@@ -440,13 +471,39 @@ class BuiltinMixin:
                 return recv
             if name == "decode":
                 raise Unsupported("bytes.decode")
+        if isinstance(recv, SetV):
+            if name == "add":
+                self.log_write(recv, "*")
+                self.dict_store(fr, recv, args[0], True)
+                return None
+            if name == "update":
+                self.log_write(recv, "*")
+                for a in args:
+                    src = self.as_list(a, fr)
+                    if src.items is None:
+                        raise Unsupported("set.update from a symbolic-length iterable")
+                    for x in src.items:
+                        self.dict_store(fr, recv, x, True)
+                return None
+            if name in ("difference_update", "discard", "remove"):
+                self.log_write(recv, "*")
+                srcs = [ListV([args[0]])] if name != "difference_update" else [self.as_list(a, fr) for a in args]
+                for src in srcs:
+                    if src.items is None:
+                        raise Unsupported("set difference with a symbolic-length iterable")
+                    for x in src.items:
+                        self.dict_remove(fr, recv, x, must_exist=(name == "remove"))
+                return None
+            if name == "copy":
+                return SetV(recv.d)
         if isinstance(recv, DictV):
             if name == "keys":
-                return ListV(list(recv.d.keys()))
+                # a view: membership tests go to the dict itself; iteration / len see the keys
+                return recv if not isinstance(recv, SetV) else ListV(recv.keys())
             if name == "values":
                 return ListV(list(recv.d.values()))
             if name == "items":
-                return ListV([(k, v) for k, v in recv.d.items()])
+                return ListV(recv.items())
             if name == "get":
                 return self.dict_get(fr, recv, args[0], raise_key=False, default=args[1] if len(args) > 1 else None)
             if name == "copy":
